@@ -675,13 +675,18 @@ Theorem scanner_skips_every_sentence b : L b ->
 Proof. intros l. exact (proj1 scanner_complete b l). Qed.
 
 (* ---------- following a struct: sentences of a schema ---------- *)
-(* a value where the struct has a field is read strictly (and, if that field is a struct written as an object, by its
-   own schema); the value of any other key may be ANY sentence of the lenient grammar and is represented by JNull *)
+(* a value where the struct has a field is read strictly (and, if that field is a struct written as an object or in the
+   positional form, by its own schema); the value of any other key may be ANY sentence of the lenient grammar and is
+   represented by JNull *)
+Definition hd_schema (fs : list (string * schema)) : schema := match fs with (_, sc) :: _ => sc | [] => SLeaf end.
+
 Inductive GS : schema -> json -> bytes -> Prop :=
 | GS_leaf t b : G t b -> GS SLeaf t b
-| GS_other fs t b : G t b -> (forall r, b <> 123 :: r) -> GS (SStruct fs) t b
+| GS_other fs t b : G t b -> (forall r, b <> 123 :: r) -> (forall r, b <> 91 :: r) -> GS (SStruct fs) t b
 | GS_obj0 fs w : WS w -> GS (SStruct fs) (JObj []) (123 :: w ++ [125])
 | GS_obj fs l w b : WS w -> GSM fs l b -> GS (SStruct fs) (JObj l) (123 :: w ++ b)
+| GS_arr0 fs w : WS w -> GS (SStruct fs) (JArr []) (91 :: w ++ [93])
+| GS_arr fs l w b : WS w -> GSE fs l b -> GS (SStruct fs) (JArr l) (91 :: w ++ b)
 with GSM : list (string * schema) -> list (string * json) -> bytes -> Prop :=
 | GSM_last fs k kb w2 w3 v b w4 : Gstr k kb -> WS w2 -> WS w3 -> GSV fs (str_of k) v b -> WS w4 ->
     GSM fs [(str_of k, v)] (kb ++ w2 ++ 58 :: w3 ++ b ++ w4 ++ [125])
@@ -689,12 +694,17 @@ with GSM : list (string * schema) -> list (string * json) -> bytes -> Prop :=
     GSM fs l b' -> GSM fs ((str_of k, v) :: l) (kb ++ w2 ++ 58 :: w3 ++ b ++ w4 ++ 44 :: w1 ++ b')
 with GSV : list (string * schema) -> string -> json -> bytes -> Prop :=
 | GSV_known fs k sc v b : field_of k fs = Some sc -> GS sc v b -> GSV fs k v b
-| GSV_unknown fs k b : field_of k fs = None -> L b -> GSV fs k JNull b.
+| GSV_unknown fs k b : field_of k fs = None -> L b -> GSV fs k JNull b
+with GSE : list (string * schema) -> list json -> bytes -> Prop :=
+| GSE_last fs v b w2 : GS (hd_schema fs) v b -> WS w2 -> GSE fs [v] (b ++ w2 ++ [93])
+| GSE_cons fs v b w2 w1 l b' : GS (hd_schema fs) v b -> WS w2 -> WS w1 -> GSE (tl fs) l b' ->
+    GSE fs (v :: l) (b ++ w2 ++ 44 :: w1 ++ b').
 
 Scheme GS_mut := Induction for GS Sort Prop
   with GSM_mut := Induction for GSM Sort Prop
-  with GSV_mut := Induction for GSV Sort Prop.
-Combined Scheme GS_GSM_GSV_ind from GS_mut, GSM_mut, GSV_mut.
+  with GSV_mut := Induction for GSV Sort Prop
+  with GSE_mut := Induction for GSE Sort Prop.
+Combined Scheme GS_all_ind from GS_mut, GSM_mut, GSV_mut, GSE_mut.
 
 Definition RS (sc : schema) (t : json) (b : bytes) (_ : GS sc t b) : Prop :=
   forall w rest fuel, WS w -> ok_rest rest -> (List.length b < fuel)%nat ->
@@ -708,27 +718,43 @@ Definition RV (fs : list (string * schema)) (k : string) (v : json) (b : bytes) 
     | Some sc' => parse_sch f sc' (w ++ b ++ rest)
     | None => match ignore_value (S f) (w ++ b ++ rest) with Some r3 => Some (JNull, r3) | None => None end
     end = Some (v, rest).
+Definition RE (fs : list (string * schema)) (l : list json) (b : bytes) (_ : GSE fs l b) : Prop :=
+  forall w rest acc fuel, WS w -> (List.length b < fuel)%nat ->
+    sch_elems fuel fs (w ++ b ++ rest) acc = Some (JArr (rev acc ++ l), rest).
 
 Lemma GSM_head fs l b : GSM fs l b -> exists r, b = 34 :: r.
 Proof.
   destruct 1 as [fs k kb w2 w3 v b w4 (ts & -> & _) _ _ _ _|fs k kb w2 w3 v b w4 w1 l b' (ts & -> & _) _ _ _ _ _ _]; cbn [app]; eauto.
 Qed.
 
+Lemma GS_head sc t b : GS sc t b -> exists c z, b = c :: z /\ vstart c.
+Proof.
+  destruct 1 as [t b g|fs t b g _ _|fs w _|fs l w b _ _|fs w _|fs l w b _ _]; try (apply (G_head _ _ g));
+    eexists _, _; (split; [reflexivity|]); unfold vstart; tauto.
+Qed.
+Lemma GSE_head fs l b : GSE fs l b -> exists c z, b = c :: z /\ vstart c.
+Proof.
+  destruct 1 as [fs v b w2 Hv _|fs v b w2 w1 l b' Hv _ _ _]; destruct (GS_head _ _ _ Hv) as (c & z & -> & Hc); cbn [app]; eauto.
+Qed.
+
 Theorem schema_reader_complete :
   (forall sc t b (g : GS sc t b), RS sc t b g) /\
   (forall fs l b (g : GSM fs l b), RM fs l b g) /\
-  (forall fs k v b (g : GSV fs k v b), RV fs k v b g).
+  (forall fs k v b (g : GSV fs k v b), RV fs k v b g) /\
+  (forall fs l b (g : GSE fs l b), RE fs l b g).
 Proof.
-  apply GS_GSM_GSV_ind; unfold RS, RM, RV.
+  apply GS_all_ind; unfold RS, RM, RV, RE.
   - (* leaf *) intros t b g w rest fuel Hw Hr Hf. destruct fuel as [|f]; [lia|]. cbn [parse_sch].
     apply strict_reader_reads_every_sentence; assumption.
-  - (* not an object *) intros fs t b g Hno w rest fuel Hw Hr Hf. destruct fuel as [|f]; [lia|]. cbn [parse_sch].
+  - (* neither an object nor an array *) intros fs t b g Hno Hna w rest fuel Hw Hr Hf. destruct fuel as [|f]; [lia|]. cbn [parse_sch].
     destruct (G_head _ _ g) as (c & r & Eb & Hc).
     rewrite skip_ws_app; [|exact Hw|subst b; cbn; apply vstart_nonws; exact Hc].
     assert (E : (c =? 123) = false).
     { destruct (N.eqb_spec c 123) as [->|]; [|reflexivity]. exfalso. eapply Hno. exact Eb. }
+    assert (E' : (c =? 91) = false).
+    { destruct (N.eqb_spec c 91) as [->|]; [|reflexivity]. exfalso. eapply Hna. exact Eb. }
     pose proof (strict_reader_reads_every_sentence t b g w rest (S f) Hw Hr Hf) as Hp.
-    subst b. cbn [app] in *. rewrite E. exact Hp.
+    subst b. cbn [app] in *. rewrite E, E'. exact Hp.
   - (* {} *) intros fs w0 Hw0 w rest fuel Hw Hr Hf. destruct fuel as [|f]; [lia|]. cbn [parse_sch].
     rewrite skip_ws_app; [|exact Hw|cbn; reflexivity]. cbn [app].
     assert (E : (123 =? 123) = true) by reflexivity. rewrite E.
@@ -742,6 +768,20 @@ Proof.
     assert (Hlen : (List.length b < f)%nat) by (cbn [List.length] in Hf; rewrite app_length in Hf; lia).
     specialize (IH [] rest [] f (Forall_nil _) Hlen). cbn [app rev] in IH.
     subst b. cbn [app] in *. assert (E7 : (34 =? 125) = false) by reflexivity. rewrite E7. exact IH.
+  - (* [] *) intros fs w0 Hw0 w rest fuel Hw Hr Hf. destruct fuel as [|f]; [lia|]. cbn [parse_sch].
+    rewrite skip_ws_app; [|exact Hw|cbn; reflexivity]. cbn [app].
+    assert (E : (91 =? 123) = false) by reflexivity. assert (E' : (91 =? 91) = true) by reflexivity. rewrite E, E'.
+    rewrite <- app_assoc. rewrite skip_ws_app; [|exact Hw0|cbn; reflexivity].
+    cbn [app]. assert (E7 : (93 =? 93) = true) by reflexivity. rewrite E7. reflexivity.
+  - (* [elements] *) intros fs l w0 b Hw0 He IH w rest fuel Hw Hr Hf. destruct fuel as [|f]; [lia|]. cbn [parse_sch].
+    rewrite skip_ws_app; [|exact Hw|cbn; reflexivity]. cbn [app].
+    assert (E : (91 =? 123) = false) by reflexivity. assert (E' : (91 =? 91) = true) by reflexivity. rewrite E, E'.
+    rewrite <- app_assoc.
+    destruct (GSE_head _ _ _ He) as (c & r & Eb & Hc).
+    rewrite skip_ws_app; [|exact Hw0|subst b; cbn; apply vstart_nonws; exact Hc].
+    assert (Hlen : (List.length b < f)%nat) by (cbn [List.length] in Hf; rewrite app_length in Hf; lia).
+    specialize (IH [] rest [] f (Forall_nil _) Hlen). cbn [app rev] in IH.
+    subst b. cbn [app] in *. assert (E7 : (c =? 93) = false) by (unfold vstart, is_digit in Hc; lia). rewrite E7. exact IH.
   - (* last member *) intros fs k kb w2 w3 v b w4 Hk Hw2 Hw3 Hv IHv Hw4 w rest acc fuel Hw Hf.
     destruct fuel as [|f]; [lia|]. cbn [sch_members].
     rewrite <- !app_assoc. lens Hf.
@@ -774,6 +814,21 @@ Proof.
   - (* value of a known key *) intros fs k sc v b Hk g IH w rest f Hw Hr Hf. rewrite Hk. apply IH; assumption.
   - (* value of an unknown key *) intros fs k b Hk l w rest f Hw Hr Hf. rewrite Hk.
     rewrite (scanner_skips_every_sentence b l w rest (S f) Hw Hr) by lia. reflexivity.
+  - (* last element *) intros fs v b w2 Hv IHv Hw2 w rest acc fuel Hw Hf. destruct fuel as [|f]; [lia|]. cbn [sch_elems].
+    rewrite <- !app_assoc. lens Hf. fold (hd_schema fs).
+    rewrite (IHv w (w2 ++ [93] ++ rest) f Hw); [|apply ok_rest_sep; [exact Hw2|tauto]|lia].
+    rewrite skip_ws_app; [|exact Hw2|cbn; reflexivity]. cbn [app].
+    assert (E1 : (93 =? 44) = false) by reflexivity. assert (E2 : (93 =? 93) = true) by reflexivity. rewrite E1, E2.
+    cbn [rev]. reflexivity.
+  - (* element, comma, more *) intros fs v b w2 w1 l b' Hv IHv Hw2 Hw1 He IHe w rest acc fuel Hw Hf.
+    destruct fuel as [|f]; [lia|]. cbn [sch_elems].
+    rewrite <- !app_assoc. lens Hf. fold (hd_schema fs).
+    rewrite (IHv w (w2 ++ (44 :: w1 ++ b') ++ rest) f Hw); [|apply ok_rest_sep; [exact Hw2|tauto]|lia].
+    rewrite skip_ws_app; [|exact Hw2|cbn; reflexivity]. cbn [app].
+    assert (E1 : (44 =? 44) = true) by reflexivity. rewrite E1.
+    destruct (GS_head _ _ _ Hv) as (c0 & r0 & Eb0 & _). assert (1 <= List.length b)%nat by (subst b; cbn; lia).
+    rewrite <- app_assoc. rewrite (IHe w1 rest (v :: acc) f Hw1) by lia.
+    cbn [rev]. rewrite <- app_assoc. reflexivity.
 Qed.
 
 (* the whole body of a response: the schema reader, then nothing but white space *)
